@@ -327,12 +327,15 @@ class Runner:
                     ev["cause"] = template_cause(locals().get("text", ""))
             return ev
         if a == "GetConfig":
-            ev.update(ok=False, yaml=False)
+            ev.update(ok=False, yaml=False, schema=False)
             try:
                 text = ad.config_text(self.obj)
                 ev["ok"] = True
                 self.cfg = A.yaml_load(text)
                 ev["yaml"] = True
+                if s.get("check"):
+                    ad.check(copy.deepcopy(self.cfg))
+                ev["schema"] = True
             except Exception as e:  # noqa: BLE001
                 ev["err"] = f"{type(e).__name__}: {e}"[:300]
                 self.cfg = None
@@ -341,7 +344,6 @@ class Runner:
             try:
                 if self.cfg is None:
                     raise A.Refused("no configuration to load")
-                ad.check(copy.deepcopy(self.cfg))
                 self.obj = ad.load(copy.deepcopy(self.cfg))
                 self.settings = copy.deepcopy(self.cfg.get(ad.settings_key, {}))
                 ev["ok"] = True
@@ -496,19 +498,35 @@ def run_trace(ad, lay, sched, r, tid, lay_ref):
     return {"id": tid, "lay": lay_ref, "area": ad.ident, "ev": evs}
 
 
-SCHED_TEMPLATE = [{"a": "NewObject"}, {"a": "Template"}, {"a": "LoadConfig"}, {"a": "Export"}, {"a": "Parse"}, {"a": "Export"}, {"a": "GetConfig"}, {"a": "LoadConfig"},
+SCHED_TEMPLATE = [{"a": "NewObject"}, {"a": "Template"}, {"a": "LoadConfig"}, {"a": "Export"}, {"a": "Parse"}, {"a": "Export"}, {"a": "GetConfig", "check": True}, {"a": "LoadConfig"},
                   {"a": "Export"}]
 SCHED_VALUES = [{"a": "NewObject"}, {"a": "SetValues", "cls": "field", "val": "mix", "n": 8}, {"a": "SetValues", "cls": "compfield", "val": "mix", "n": 4},
                 {"a": "Export", "seal": True}, {"a": "Parse"}, {"a": "Export"}, {"a": "GetConfig"}, {"a": "LoadConfig"}, {"a": "Export"},
                 {"a": "SetValues", "cls": "group", "val": "rnd", "n": 3}, {"a": "SetValues", "cls": "reg", "val": "mix", "n": 4}, {"a": "Export"}, {"a": "Parse"}, {"a": "Export"},
                 {"a": "SetValues", "cls": "rotkh", "mode": "bytes"}, {"a": "Export"},
                 {"a": "NewObject"}, {"a": "Export"}, {"a": "Template"}, {"a": "LoadConfig"}, {"a": "Export"}]
-SCHED_LIGHT = [{"a": "NewObject"}, {"a": "SetValues", "cls": "field", "val": "mix", "n": 6}, {"a": "Export"}, {"a": "Parse"}, {"a": "Export"}, {"a": "GetConfig"},
-               {"a": "LoadConfig"}, {"a": "Export"}, {"a": "NewObject"}, {"a": "Export"}]
+# areas whose database content is identical to an area that runs the full schedules (alias families, unchanged revisions)
+SCHED_ALIAS = [{"a": "NewObject"}, {"a": "SetValues", "cls": "field", "val": "mix", "n": 4}, {"a": "Export"}, {"a": "Parse"}, {"a": "Export"}, {"a": "NewObject"}, {"a": "Export"}]
+SCHED_ALIAS_NOBIN = [{"a": "NewObject"}]
+
+
+def rich_hash(lay):
+    """Identity of an area's database content: everything the layout extraction read (names, enums, offsets, presets, groups ...)."""
+    return sha({k: x for k, x in lay.items() if k not in ("by_uid", "files")})
+
+
+def layout_job(ident):
+    """Worker of phase 1: extract the layout of one area from the database."""
+    try:
+        lay = A.make(ident).layout()
+        A.tla_layout(lay)
+        return {"area": ident, "hash": rich_hash(lay)}
+    except Exception as e:  # noqa: BLE001
+        return {"area": ident, "error": f"layout: {type(e).__name__}: {e}"[:300]}
 
 
 def area_job(job):
-    """Worker: one area, several schedules -> layout for the spec + traces."""
+    """Worker of phase 2: one area, several schedules -> layout for the spec + traces."""
     t0 = time.time()
     ident = job["area"]
     ad = A.make(ident)
@@ -561,14 +579,21 @@ def validate(v, results, label):
         return {}, names
     lay_file = write_layouts(layouts, f"c12-layouts-{label}.json")
     rej_all = {}
-    # batches keep the JSON files and the JVM heap moderate
+    # batches keep the JSON files and the JVM heap moderate; numeric ids keep TLC's REJ lines short (long tuples are wrapped)
     size = 600
     for k in range(0, len(traces), size):
         chunk = traces[k:k + size]
+        ids = [t["id"] for t in chunk]
+        for n, t in enumerate(chunk):
+            t["id"] = n
         rej, res = tlc.tv(SPEC, "CfgAreaTrace", chunk, env={"LAYOUT_FILE": lay_file}, heap="10g", timeout=1500)
+        for n, t in enumerate(chunk):
+            t["id"] = ids[n]
         v.traces(len(chunk))
         v.extra["tv_states"] = v.extra.get("tv_states", 0) + res.distinct
-        rej_all.update(rej)
+        if "REJ" in res.out and len(rej) != res.out.count('<<"REJ"'):
+            raise Machinery("a REJ line of the trace validation could not be read back")
+        rej_all.update({ids[n]: x for n, x in rej.items()})
     return rej_all, names
 
 
@@ -618,7 +643,7 @@ def check_registers_copy(v):
 
 
 def gen_schedules(v, tiny_file, num, depth):
-    g = tlc.run(SPEC, "CfgAreaGen", "CfgAreaGen.cfg", env={"LAYOUT_FILE": tiny_file, "GEN_DEPTH": depth, "MC_LEVEL": 99}, workers=1, deadlock=False,
+    g = tlc.run(SPEC, "CfgAreaGen", "CfgAreaGen.cfg", env={"LAYOUT_FILE": tiny_file, "GEN_DEPTH": depth, "MC_LEVEL": 99, "MENU": "full"}, workers=1, deadlock=False,
                 simulate=f"num={num}", depth=depth + 3, heap="4g", timeout=300)
     behs = g.json_prints()
     if len(behs) < max(3, num // 2):
@@ -647,7 +672,7 @@ def run(tier):
     # ---- MC on the small layouts
     tiny = tiny_layouts()
     tiny_file = write_layouts([A.tla_layout(x) for x in tiny], "c12-tiny.json")
-    mc = tlc.mc(SPEC, "CfgAreaMC", "CfgAreaMC.cfg", env={"LAYOUT_FILE": tiny_file, "MC_LEVEL": 3 if tier == "quick" else 4}, heap="8g", timeout=900,
+    mc = tlc.mc(SPEC, "CfgAreaMC", "CfgAreaMC.cfg", env={"LAYOUT_FILE": tiny_file, "MC_LEVEL": 3, "MENU": "small" if tier == "quick" else "full"}, heap="8g", timeout=900,
                 require_actions=REQ_ACTIONS)
     v.add_mc(mc)
     say(f"[C12] MC done {v.timer.s()}s: {mc.distinct} states, {mc.generated} transitions")
@@ -658,38 +683,65 @@ def run(tier):
 
     # ---- every area the classes offer
     areas = A.enumerate_areas()
+    if os.environ.get("VERIF_C12_KINDS"):      # development aid: restrict the sweep to some kinds of area
+        areas = [a for a in areas if a["kind"] in os.environ["VERIF_C12_KINDS"].split(",")]
+        v.assumptions.append("RESTRICTED RUN: VERIF_C12_KINDS=" + os.environ["VERIF_C12_KINDS"])
     kinds = {}
     for a in areas:
         kinds[a["kind"]] = kinds.get(a["kind"], 0) + 1
     say(f"[C12] {len(areas)} areas (kind x family x revision x sub-area): {kinds}")
+    idents = [{k: a[k] for k in ("kind", "family", "rev", "sub")} for a in areas]
+    hashes = pmap(layout_job, idents, chunksize=8)
+    errs = [x for x in hashes if "error" in x]
+    if errs:
+        raise Machinery(f"layout extraction failed for {len(errs)} areas, e.g. {errs[0]}")
+    # areas with identical database content form one class: its representative (a latest revision if there is one) runs the full
+    # schedules, every other member is still instantiated once (alias schedule); the thorough tier runs everything on everybody
+    groups = {}
+    for a, h in zip(areas, hashes):
+        groups.setdefault((a["kind"], a["sub"], h["hash"]), []).append(a)
+    reps = set()
+    for members in groups.values():
+        members.sort(key=lambda a: (not a["latest"], a["family"], a["rev"]))
+        reps.add(json.dumps({k: members[0][k] for k in ("kind", "family", "rev", "sub")}, sort_keys=True))
+    say(f"[C12] layouts extracted {v.timer.s()}s: {len(groups)} classes of identical database content")
     jobs = []
-    for idx, a in enumerate(areas):
-        ident = {k: a[k] for k in ("kind", "family", "rev", "sub")}
-        sl = [("template", SCHED_TEMPLATE), ("values", SCHED_VALUES)] if (a["latest"] or tier != "quick") else [("light", SCHED_LIGHT)]
-        pick = rng(PROP, "subset", json.dumps(ident, sort_keys=True)).random()
-        share = 0.34 if tier == "quick" else 1.0
-        if a["latest"] and pick < share:
-            n_h = 2 if tier == "quick" else 6
-            for k in range(n_h):
-                sl.append((f"hist{k}", scheds[(idx * 7 + k) % len(scheds)]))
-            if a["kind"] in ("cmpa",):
+    n_full = 0
+    for idx, (a, ident) in enumerate(zip(areas, idents)):
+        is_rep = json.dumps(ident, sort_keys=True) in reps
+        if is_rep or tier != "quick":
+            n_full += 1
+            sl = [("template", SCHED_TEMPLATE), ("values", SCHED_VALUES)]
+            pick = rng(PROP, "subset", json.dumps(ident, sort_keys=True)).random()
+            if tier != "quick" or pick < 0.34:
+                for k in range(2 if tier == "quick" else 5):
+                    sl.append((f"hist{k}", scheds[(idx * 7 + k) % len(scheds)]))
+            if a["kind"] == "cmpa":
                 sl.append(("rotkeys", [{"a": "NewObject"}, {"a": "SetValues", "cls": "rotkh", "mode": "keys", "nkeys": 1}, {"a": "Export"}, {"a": "Parse"}, {"a": "Export"},
                                        {"a": "SetValues", "cls": "rotkh", "mode": "keys", "nkeys": 2, "big": False}, {"a": "Export"}]))
+        else:
+            sl = [("alias", SCHED_ALIAS if A.KINDS[a["kind"]].has_binary else SCHED_ALIAS_NOBIN)]
         jobs.append({"area": ident, "scheds": sl})
     # heavy kinds first, so that the pool is balanced
     weight = {"fuses": 9, "cmpa": 6, "cfpa": 6, "tz": 5, "romcfg": 4, "fcb": 3, "xmcd": 3, "bca": 2, "fcf": 2, "cmactable": 2, "memcfg": 1}
-    jobs.sort(key=lambda j: -weight.get(j["area"]["kind"], 1) * len(j["scheds"]))
+    jobs.sort(key=lambda j: -weight.get(j["area"]["kind"], 1) * (10 if len(j["scheds"]) > 1 else 1) * len(j["scheds"]))
     results = pmap(area_job, jobs, chunksize=1)
-    say(f"[C12] real runs done {v.timer.s()}s")
+    say(f"[C12] real runs done {v.timer.s()}s ({n_full} areas with the full schedules, {len(jobs) - n_full} alias instantiations)")
     errs = [x for x in results if "error" in x]
     if errs:
         raise Machinery(f"layout extraction failed for {len(errs)} areas, e.g. {errs[0]}")
+    slow = sorted(results, key=lambda x: -x["wall"])[:6]
+    v.extra["slowest_areas_s"] = {A.make(x["area"]).key(): round(x["wall"], 1) for x in slow}
+    v.extra["cpu_s_real_runs"] = round(sum(x["wall"] for x in results), 1)
+    say(f"[C12] cpu {v.extra['cpu_s_real_runs']}s, slowest: {v.extra['slowest_areas_s']}")
     n_ev = sum(len(t["ev"]) for x in results for t in x["traces"])
     v.count(n_ev)
     for x in results:
         for t in x["traces"]:
             v.nontrivial(t["id"])
     v.extra["areas"] = kinds
+    v.extra["content_classes"] = len(groups)
+    v.extra["areas_full_schedules"] = n_full
     v.extra["events_by_action"] = {}
     for x in results:
         for t in x["traces"]:
@@ -697,7 +749,7 @@ def run(tier):
                 v.extra["events_by_action"][e["a"]] = v.extra["events_by_action"].get(e["a"], 0) + 1
 
     # ---- canary
-    good = next(t for x in results if x["area"]["kind"] == "cmpa" for t in x["traces"] if t["id"].endswith("#values") and len(t["ev"]) > 8)
+    good = next(t for x in results if x["area"]["kind"] in ("cmpa", "romcfg", "bca", "fcb", "memcfg") for t in x["traces"] if t["id"].endswith("#values") and len(t["ev"]) > 8)
     res0 = next(x for x in results for t in x["traces"] if t is good)
     canary(v, good, res0)
     say(f"[C12] canary done {v.timer.s()}s")
@@ -754,7 +806,9 @@ def canary(v, good, res):
     i2 = next(i for i, e in enumerate(b2["ev"]) if e["a"] == "Export")
     b2["ev"][i2]["size"] += 4
     lay_file = write_layouts([res["lay"]], "c12-canary-layout.json")
+    g["id"], b1["id"], b2["id"] = 0, 1, 2
     rej, _ = tlc.tv(SPEC, "CfgAreaTrace", [g, b1, b2], env={"LAYOUT_FILE": lay_file}, heap="4g")
+    rej = {["canary-good", "canary-state", "canary-size"][k]: x for k, x in rej.items()}
     if set(rej) != {"canary-state", "canary-size"} or rej["canary-size"][3] != "SizeFixed" or rej["canary-state"][3] != "SetValues":
         raise Machinery(f"canary failed: rejected {rej} (expected canary-state at clause SetValues and canary-size at clause SizeFixed only)")
     v.extra["canary"] = "real CMPA value trace accepted; same trace with one flipped logged register bit rejected (clause SetValues), with a wrong export size rejected (SizeFixed)"
@@ -796,8 +850,8 @@ def replay(path):
             sched = SCHED_TEMPLATE
         elif name == "values":
             sched = SCHED_VALUES
-        elif name == "light":
-            sched = SCHED_LIGHT
+        elif name == "alias":
+            sched = SCHED_ALIAS if ad.has_binary else SCHED_ALIAS_NOBIN
         if sched is None:
             # generated schedule: rebuild the steps from the witness (classes are re-concretised with the same seed)
             sched = []
@@ -807,9 +861,10 @@ def replay(path):
         t = run_trace(ad, lay, sched, rng(PROP, ad.key(), name), w["trace_id"], 1)
     t["ev"] = [strip_event(e) for e in t["ev"]]
     lay_file = write_layouts([tl], "c12-replay-layout.json")
+    t["id"] = 0
     rej, _ = tlc.tv(SPEC, "CfgAreaTrace", [t], env={"LAYOUT_FILE": lay_file}, heap="4g")
     if rej:
-        rj = rej[t["id"]]
+        rj = rej[0]
         say(f"VIOLATION property=C12 replay={path}")
         say(f"  rejected at event {rj[0] + 1} ({rj[2]}), clause {rj[3]}, register {lay['regs'][rj[4] - 1]['name'] if rj[4] else '-'}")
         return 1
